@@ -70,6 +70,7 @@ def components(case):
     n = len(pos)
     L = case["cell"][0]
     parent = list(range(n))
+    edges = []
 
     def find(x):
         while parent[x] != x:
@@ -96,9 +97,11 @@ def components(case):
                 return None
             if best < c:
                 parent[find(i)] = find(j)
+                edges.append((j, i) if (i + j) % 3 == 0 else (i, j))
     comps = {}
     for i in range(n):
         comps.setdefault(find(i), []).append(i)
+    case["_edges"] = edges
     return sorted(comps.values(), key=min)
 
 
@@ -132,7 +135,7 @@ def run(res: C.Result):
     results = [None] * len(allc)
     for j, o in enumerate(outs):
         results[j::16] = o["results"]
-    items1, items2 = [], []
+    items1, items2, items3 = [], [], []
     dist = {"n_atoms": {}, "k_deleted": {}, "arrays": {}, "sorted_indices": 0, "cutoff_kinds": {}, "pbc": 0,
             "required_size": {}, "default_kinds": {}, "components": {}, "admitted_atoms": 0, "default_atoms": 0}
     distinct = set()
@@ -202,10 +205,14 @@ def run(res: C.Result):
             distinct.add(("m", k))
         comps_l = "[" + "; ".join(C.natlist(cc) for cc in comp) + "]"
         items2.append(f"({k}%nat, ({C.zlist(default)}, {lo}%nat, {hi}%nat, {comps_l}), {C.zlist(canon(lab))})")
+        edges_l = "[" + "; ".join(f"({a}, {b})%nat" for a, b in c["_edges"]) + "]"
+        items3.append(f"({k}%nat, ({C.zlist(default)}, {lo}%nat, {hi}%nat, {edges_l}), {C.zlist(canon(lab))})")
+        dist["edges"] = dist.get("edges", 0) + len(c["_edges"])
     hdr = "From QV Require Import Model.Atoms Model.Algebra.\n"
     tot_dis = 0
     for tag, f, items, cs, model in (("r", "c19_reinsert_case", items1, c1, "Atoms.delete/select/reinsert"),
-                                     ("m", "c19_labels_case", items2, c2, "Atoms.labels")):
+                                     ("m", "c19_labels_case", items2, c2, "Atoms.labels"),
+                                     ("e", "c19_molecules_case", items3, c2, "Atoms.components+labels")):
         for i in range(0, len(items), 300):
             body, err = C.coq_eval_list(res.workdir, hdr, f"disagreements {f} [{'; '.join(items[i:i + 300])}]", tag=f"c19{tag}_{i}")
             if err:
@@ -219,14 +226,15 @@ def run(res: C.Result):
         rule="(a) real Atoms (1-24 atoms, random subsets of 9 extra arrays incl. 2-D/3-D/int/bool/float32), random index "
              "subsets in random order, list or ndarray indices: delete, slice, reinsert_atoms, three stages compared with the "
              "model row by row (byte-level row tokens + dtype); (b) random molecular geometries (shuffled indices, periodic or "
-             "not, scalar/dict cutoffs, size filters, default arrays) against an independent union-find over brute-force "
+             "not, scalar/dict cutoffs, size filters, default arrays) against (i) the model's verified component algorithm "
+             "(Atoms.components, C19_components_spec) evaluated in Coq on the within-cutoff pair list and (ii) an independent union-find, both over brute-force "
              "minimum-image distances; non-trivial = unsorted multi-index deletion, or >1 component with both admitted and "
              "non-admitted atoms",
-        correspondence={"flavour": "functional", "cases": len(items1) + len(items2), "disagreed": tot_dis,
-                        "agreed": len(items1) + len(items2) - tot_dis},
+        correspondence={"flavour": "functional", "cases": len(items1) + len(items2) + len(items3), "disagreed": tot_dis,
+                        "agreed": len(items1) + len(items2) + len(items3) - tot_dis},
         direct_oracle={"evaluations": len(allc), "failures": len(res.failures)}, input_distribution=dist)
     res.samples += [{"case": c1[0], "result_keys": list(results[0].keys())}, {"case": c2[1], "labels": results[n1 + 1].get("labels"), "components": comps2[1]}]
-    res.assumptions += ["connected components come from networkx / ase.neighborlist (trusted external, differential-tested here)",
+    res.assumptions += ["which pairs are within the cutoff is float geometry (brute-force minimum-image distances computed by the harness); the components of that pair list are computed by the verified model",
                         "pairs within 1e-6 of a cutoff are excluded from generation",
                         "default arrays have negative entries (with non-negative defaults 'same non-negative label iff connected' "
                         "is unsatisfiable for any implementation)"]
